@@ -46,9 +46,13 @@ Fixpoint reg_set (r : registry) (a : bytes) (v : relayer) : registry :=
   end.
 
 (** RegisterRelayers(address, chains, addresses): one store.Set — the previous record
-    of that address (all its chains) is REPLACED, nothing is merged. *)
-Definition register_relayers (r : registry) (a : bytes) (chains addrs : list bytes) : registry :=
-  reg_set r a {| r_chains := chains; r_addrs := addrs |}.
+    of that address (all its chains) is REPLACED, nothing is merged.  The prefix store
+    panics on an empty key (types.AssertValidKey), i.e. on an empty address. *)
+Definition register_relayers (r : registry) (a : bytes) (chains addrs : list bytes) : outcome registry :=
+  match a with
+  | [] => Panic
+  | _ => Ok (reg_set r a {| r_chains := chains; r_addrs := addrs |})
+  end.
 
 (** AuthRelayer(chainName, relayer): `for _, chain := range ir.Chains { if chain == chainName … }` *)
 Definition auth_relayer (r : registry) (chain signer : bytes) : bool :=
@@ -264,13 +268,14 @@ Section Auth.
   Definition deliver (s : state) (r : outcome state) : state * bool :=
     match r with Ok s' => (s', true) | _ => (s, false) end.
 
+  Definition do_register (s : state) (a : bytes) (cs ads : list bytes) : outcome state :=
+    r' <- register_relayers (reg s) a cs ads ;;
+    Ok {| reg := r'; low := low s; wlog := wlog s |}.
+
   Definition step (s : state) (o : op) : state * bool :=
     match o with
-    | ORegGov a cs ads =>
-        if validate_basic a cs ads
-        then ({| reg := register_relayers (reg s) a cs ads; low := low s; wlog := wlog s |}, true)
-        else (s, false)
-    | ORegRaw a cs ads => ({| reg := register_relayers (reg s) a cs ads; low := low s; wlog := wlog s |}, true)
+    | ORegGov a cs ads => if validate_basic a cs ads then deliver s (do_register s a cs ads) else (s, false)
+    | ORegRaw a cs ads => deliver s (do_register s a cs ads)
     | OUpdate m => deliver s (handle_update s m)
     | ORecv m => deliver s (handle_recv s m)
     | OAck m => deliver s (handle_ack s m)
@@ -281,10 +286,13 @@ Section Auth.
     match ops with [] => s | o :: ops' => run ops' (fst (step s o)) end.
 
   (** the registration an operation performs, if any *)
+  Definition reg_write (a : bytes) (cs ads : list bytes) : option (bytes * relayer) :=
+    match a with [] => None | _ => Some (a, {| r_chains := cs; r_addrs := ads |}) end.
+
   Definition reg_effect (o : op) : option (bytes * relayer) :=
     match o with
-    | ORegGov a cs ads => if validate_basic a cs ads then Some (a, {| r_chains := cs; r_addrs := ads |}) else None
-    | ORegRaw a cs ads => Some (a, {| r_chains := cs; r_addrs := ads |})
+    | ORegGov a cs ads => if validate_basic a cs ads then reg_write a cs ads else None
+    | ORegRaw a cs ads => reg_write a cs ads
     | _ => None
     end.
 
